@@ -362,6 +362,8 @@ def run(ctx):
 
     ns_rule(ctx, syn)
     once_rule(ctx, syn)
+    from props.c01 import expand_rule
+    expand_rule(ctx, syn, rid="C17.EXPAND")   # to_webannotation walks targets through this expansion
 
     # ---------------- SEP (separator / bracket typestate on the string accumulators)
     r_sep = ctx.rule("C17.SEP", "on every path through the exporter, members and elements are separated by exactly one comma, brackets are balanced and every function returns a complete JSON value (or member list)")
